@@ -3471,7 +3471,10 @@ class BSP:
         # Now build the complete lump.
         yield struct.pack('<i', len(models))
         for name in models:
-            yield struct.pack('<128s', name.encode('ascii', 'surrogateescape'))
+            name_bytes = name.encode('ascii', 'surrogateescape')
+            if len(name_bytes) > 128:
+                raise OverflowError(f'Detail prop model "{name}" exceeds 128 character limit')
+            yield struct.pack('<128s', name_bytes)
         yield struct.pack('<i', len(sprites))
         spr_format = struct.Struct('<8f')
         for spr in sprites:
